@@ -39,8 +39,10 @@ TPublish    == Is("Publish") /\ Publish(E.conn) /\ sLtid' = E.tid
 \* abort of a running transaction; a second abort after a failed commit (or of a transaction that never
 \* joined) is a stutter
 TAbort      == Is("AbortTxn") /\ (AbortTxn(E.conn) \/ (pc[E.conn] \in {"idle", "closed"} /\ UNCHANGED vars))
+\* tpc_abort: of a voted transaction (another participant failed), or the second half of a failed commit (stutter)
+TTpcAbort   == Is("TpcAbort") /\ (AbortVoted(E.conn) \/ (pc[E.conn] # "voted" /\ UNCHANGED vars))
 TNext == TOpenNew \/ TOpenPooled \/ TClose \/ TPollRead \/ TPollApply \/ TRead \/ TReadEvict \/ TWrite \/ TReadCurrent \/ TSavepoint \/ TBeginVote
-         \/ TUndoVote \/ TUndoAbort \/ TFinish \/ TDeliver \/ TPublish \/ TAbort
+         \/ TUndoVote \/ TUndoAbort \/ TFinish \/ TDeliver \/ TPublish \/ TAbort \/ TTpcAbort
 Accepted == l = Len(Tr) + 1
 Report == (Accepted => PrintT(<<"ACCEPT", t>>)) /\ (IOEnv.TRACE_VERBOSE = "1" => PrintT(<<"AT", t, l>>))
 =============================================================================
